@@ -23,6 +23,9 @@ type DbSqlite struct {
 	db        *sql.DB
 	meta      Meta
 	writeLock sync.Mutex
+	// rootLock protects meta.RootID, which is replaced when a new root
+	// node is inserted and is read by every request for the root node
+	rootLock sync.RWMutex
 }
 
 // Meta contains metadata about the database
@@ -589,7 +592,7 @@ func (sdb *DbSqlite) edgePoints(nodeID, parentID string, points data.Points) err
 		return fmt.Errorf("Error: edgePoints nodeID=parentID=%v", nodeID)
 	}
 
-	if nodeID == sdb.meta.RootID {
+	if nodeID == sdb.rootNodeID() {
 		for _, p := range points {
 			if p.Type == data.PointTypeTombstone && p.Value > 0 {
 				return fmt.Errorf("Error, can't delete root node")
@@ -672,6 +675,9 @@ func (sdb *DbSqlite) edgePoints(nodeID, parentID string, points data.Points) err
 	var hashUpdate uint32
 
 	var nodeType string
+
+	// set if this write inserts a new root node
+	var newRootID string
 
 NextPin:
 	for _, pIn := range points {
@@ -847,7 +853,7 @@ NextPin:
 				rollback()
 				return fmt.Errorf("Error update root id in meta: %w", err)
 			}
-			sdb.meta.RootID = nodeID
+			newRootID = nodeID
 		}
 	}
 
@@ -862,6 +868,13 @@ NextPin:
 	err = tx.Commit()
 	if err != nil {
 		return err
+	}
+
+	if newRootID != "" {
+		// readers only see the new root once it is committed
+		sdb.rootLock.Lock()
+		sdb.meta.RootID = newRootID
+		sdb.rootLock.Unlock()
 	}
 
 	return nil
@@ -1038,6 +1051,8 @@ func (sdb *DbSqlite) Close() error {
 }
 
 func (sdb *DbSqlite) rootNodeID() string {
+	sdb.rootLock.RLock()
+	defer sdb.rootLock.RUnlock()
 	return sdb.meta.RootID
 }
 
@@ -1060,7 +1075,7 @@ func (sdb *DbSqlite) getNodes(tx *sql.Tx, parent, id, typ string, includeDel boo
 	switch {
 	case parent == "root":
 		// return a single root node
-		q = fmt.Sprintf("SELECT * FROM edges WHERE down = '%v'", sdb.meta.RootID)
+		q = fmt.Sprintf("SELECT * FROM edges WHERE down = '%v'", sdb.rootNodeID())
 	case parent == "all" && id == "all":
 		return nil, errors.New("invalid combination of parent and id")
 	case parent == "all":
